@@ -865,6 +865,18 @@ func (ex *Exec) strBytes(s *StrV) []*Term {
 		}
 		return bs
 	}
+	if s.bs == nil && s.hexSrc != nil {
+		bs := make([]*Term, 0, 2*len(s.hexSrc))
+		for _, b := range s.hexSrc {
+			for _, nib := range []*Term{ex.intArith(token.SHR, b, ex.bytec(4), tUint8, tUint8), ex.intArith(token.AND, b, ex.bytec(15), tUint8, tUint8)} {
+				lt := ex.cmpInt("<", nib, ex.bytec(10), false)
+				d := ex.intArith(token.ADD, nib, ex.bytec('0'), tUint8, tUint8)
+				l := ex.intArith(token.ADD, nib, ex.bytec('a'-10), tUint8, tUint8)
+				bs = append(bs, ex.tt.Ite(lt, d, l))
+			}
+		}
+		s.bs = bs
+	}
 	if s.conc && s.bs == nil {
 		bs := make([]*Term, len(s.s))
 		for i := 0; i < len(s.s); i++ {
